@@ -138,6 +138,10 @@ type Entry struct {
 	// Fields maintained internally.
 	hlen         int // Length of the header.
 	valThreshold int64
+	// notACommit marks a write the database makes on its own (value-log GC moving a value, a merge
+	// operator storing the merged value): it stores what was committed before and is not published
+	// to subscribers.
+	notACommit bool
 }
 
 func (e *Entry) isZero() bool {
